@@ -54,6 +54,79 @@ pub fn dispatch(name: &str, args: &[&str]) -> Option<String> {
                 None => "none".to_string(),
             })
         }
+        // wsroute <host|-> <uri> <default ws routes> <sub-apps: host:r,r|host:r,r>: which WebSocket route handler gets the
+        // stream of an upgrade request, end to end over loopback (exercises call_websocket_handler)
+        "wsroute" => {
+            use std::io::{Read, Write};
+            let default_routes = list(args[2]);
+            let mut app: humphrey::App<()> = humphrey::App::new_with_config(2, ());
+            for (j, r) in default_routes.iter().enumerate() {
+                let tag = format!("def:{}\n", j);
+                app = app.with_websocket_route(r, move |_req: Request, mut stream: humphrey::stream::Stream, _s: std::sync::Arc<()>| {
+                    let _ = stream.write_all(tag.as_bytes());
+                });
+            }
+            if args[3] != "-" {
+                for (i, s) in args[3].split('|').enumerate() {
+                    let (h, rs) = s.split_once(':').unwrap();
+                    let mut sub: SubApp<()> = SubApp::new();
+                    for (j, r) in list(rs).iter().enumerate() {
+                        let tag = format!("sub:{}:{}\n", i, j);
+                        sub = sub.with_websocket_route(r, move |_req: Request, mut stream: humphrey::stream::Stream, _s: std::sync::Arc<()>| {
+                            let _ = stream.write_all(tag.as_bytes());
+                        });
+                    }
+                    app = app.with_host(&unhex_str(h), sub);
+                }
+            }
+            let (tx, rx) = std::sync::mpsc::channel::<()>();
+            let mut started = None;
+            let mut app_opt = Some(app.with_shutdown(rx));
+            for _ in 0..1 {
+                let port = crate::c01::free_port();
+                let a = app_opt.take().unwrap();
+                let (dtx, drx) = std::sync::mpsc::channel::<bool>();
+                std::thread::spawn(move || {
+                    let r = a.run(format!("127.0.0.1:{}", port));
+                    let _ = dtx.send(r.is_ok());
+                });
+                let t0 = std::time::Instant::now();
+                while t0.elapsed() < std::time::Duration::from_secs(3) {
+                    if drx.try_recv().is_ok() {
+                        break;
+                    }
+                    if std::net::TcpStream::connect(("127.0.0.1", port)).is_ok() {
+                        started = Some((port, drx));
+                        break;
+                    }
+                    std::thread::sleep(std::time::Duration::from_millis(3));
+                }
+            }
+            let (port, drx) = match started {
+                Some(x) => x,
+                None => return Some("noserver".to_string()),
+            };
+            let mut c = std::net::TcpStream::connect(("127.0.0.1", port)).unwrap();
+            let mut req = format!("GET {} HTTP/1.1\r\n", unhex_str(args[1]));
+            if args[0] != "-" {
+                req.push_str(&format!("Host: {}\r\n", unhex_str(args[0])));
+            }
+            req.push_str("Upgrade: websocket\r\nConnection: Upgrade\r\n\r\n");
+            c.write_all(req.as_bytes()).unwrap();
+            c.set_read_timeout(Some(std::time::Duration::from_millis(1500))).unwrap();
+            let mut got = Vec::new();
+            let mut buf = [0u8; 256];
+            loop {
+                match c.read(&mut buf) {
+                    Ok(0) | Err(_) => break,
+                    Ok(n) => got.extend_from_slice(&buf[..n]),
+                }
+            }
+            let _ = tx.send(());
+            let _ = drx.recv_timeout(std::time::Duration::from_secs(3));
+            let text = String::from_utf8_lossy(&got).trim().to_string();
+            Some(if text.is_empty() { "none".to_string() } else { text })
+        }
         _ => None,
     }
 }
